@@ -10,6 +10,7 @@ import (
 
 	"verifharness/internal/dx"
 	"verifharness/internal/gen"
+	"verifharness/internal/hx"
 )
 
 // lyingStore answers the victim ID with a foreign (trusted, unverified) chunk.
@@ -24,6 +25,22 @@ func (l lyingStore) GetChunk(id desync.ChunkID) (*desync.Chunk, error) {
 		return desync.NewChunk(l.lie), nil
 	}
 	return l.Store.GetChunk(id)
+}
+
+// aliasStore serves every chunk out of one buffer that it reuses for the next request.
+type aliasStore struct {
+	desync.Store
+	buf []byte
+}
+
+func (a *aliasStore) GetChunk(id desync.ChunkID) (*desync.Chunk, error) {
+	ch, err := a.Store.GetChunk(id)
+	if err != nil {
+		return nil, err
+	}
+	b, _ := ch.Data()
+	a.buf = append(a.buf[:0], b...)
+	return desync.NewChunk(a.buf), nil
 }
 
 // TestSelf: the pieces the verdicts rest on are checked against hand-made inputs.
@@ -134,6 +151,37 @@ func selfTest(t *testing.T) {
 	wid := desync.ChunkID(sumWith(digestWeakPrefix, data))
 	if r, _ := classifyGet(desync.NewChunk(other), nil, wid, digestWeakPrefix); r != resWrongData {
 		fail("weak digest: foreign chunk classified %s", r)
+	}
+
+	// held chunks: a store that hands out chunks aliasing one reused buffer is flagged, a
+	// store that hands out fresh slices is not
+	{
+		d1, d2 := gen.RandBytes(100, 1), gen.RandBytes(60, 2)
+		id1, id2 := desync.ChunkID(sumWith("", d1)), desync.ChunkID(sumWith("", d2))
+		ms := dx.NewMemStore("hold")
+		ms.Put(id1, d1)
+		ms.Put(id2, d2)
+		for _, alias := range []bool{false, true} {
+			var s desync.Store = ms
+			if alias {
+				s = &aliasStore{Store: ms}
+			}
+			h := &holder{}
+			ch, err := s.GetChunk(id1)
+			h.keep("self-test", id1, ch, err)
+			n := h.followUp("self-test", s, []desync.ChunkID{id2}, []desync.ChunkID{{1}})
+			var o hx.Outcome
+			h.recheck(&o, "self", "self-test", n)
+			if h.count() != 2 || n != 2 {
+				fail("holder: %d held, %d follow-ups", h.count(), n)
+			}
+			if flagged := len(o.Violations) > 0; flagged != alias {
+				fail("holder: aliasing store=%v but flagged=%v", alias, flagged)
+			}
+			if alias && o.Violations[0].Sig != "C03:self:held-chunk-altered" {
+				fail("holder signature %q", o.Violations[0].Sig)
+			}
+		}
 	}
 
 	// repair shapes
